@@ -6,24 +6,31 @@ From Sge Require Import Lib.Dec Model.Types Model.Orderbook Model.Mint Model.Cha
 Import ListNotations.
 Open Scope Z_scope.
 
-Definition guser_op (g : gop) : Prop := match g with GUser o => user_op o | GSubParams _ _ => True end.
+Definition guser_op (g : gop) : Prop := match g with GUser o => user_op o | GSubParams _ _ => True | GBetFee _ => True end.
 
 Lemma set_sub_params_sinv s w d : sinv s -> sinv (set_sub_params s w d).
 Proof. intros [a b c e]. exact (Build_sinv (set_sub_params s w d) a b c e). Qed.
 Lemma set_sub_params_inv s w d : inv s -> inv (set_sub_params s w d).
 Proof. intros [a b c e f g]. exact (Build_inv (set_sub_params s w d) a b c e f g). Qed.
 
+Lemma set_bet_fee_sinv s fee : sinv s -> sinv (set_bet_fee s fee).
+Proof. intros [a b c e]. exact (Build_sinv (set_bet_fee s fee) a b c e). Qed.
+Lemma set_bet_fee_inv s fee : inv s -> inv (set_bet_fee s fee).
+Proof. intros [a b c e f g]. exact (Build_inv (set_bet_fee s fee) a b c e f g). Qed.
+
 Lemma gstep_sinv s g : sinv s -> guser_op g -> sinv (fst (gstep s g)).
 Proof.
-  intros I U. destruct g as [o|w d]; cbn [gstep].
+  intros I U. destruct g as [o|w d|fee]; cbn [gstep].
   - apply step_sinv; assumption.
   - destruct (c_halted s); cbn [fst]; [exact I|apply set_sub_params_sinv; exact I].
+  - destruct (c_halted s); cbn [fst]; [exact I|]. destruct ((fee <? 0) || (pr_bet_min (c_prm s) <=? fee)); cbn [fst]; [exact I|apply set_bet_fee_sinv; exact I].
 Qed.
 Lemma gstep_inv s g : inv s -> guser_op g -> inv (fst (gstep s g)).
 Proof.
-  intros I U. destruct g as [o|w d]; cbn [gstep].
+  intros I U. destruct g as [o|w d|fee]; cbn [gstep].
   - apply step_inv; [exact I|apply user_valid; exact U].
   - destruct (c_halted s); cbn [fst]; [exact I|apply set_sub_params_inv; exact I].
+  - destruct (c_halted s); cbn [fst]; [exact I|]. destruct ((fee <? 0) || (pr_bet_min (c_prm s) <=? fee)); cbn [fst]; [exact I|apply set_bet_fee_inv; exact I].
 Qed.
 
 Lemma grun_sinv gs : forall s, sinv s -> Forall guser_op gs -> sinv (grun s gs).
